@@ -193,8 +193,73 @@ fn c06_c11_hybrid(case: &Case) {
     }
 }
 
+/// C10 (and the tombstone part of C04): "a later insert of the key is not hidden by the old tombstone". The value
+/// oracle allows misses, so a hidden insert needs its own clause: a key whose last operation before a restart is an
+/// insert that was flushed (write-on-insertion, wait() returned, not shed) reads as a hit in the first lookup after
+/// the restart, as long as no block has been reclaimed.
+pub fn c10_post(case: &Case) {
+    use crate::simdev;
+    let evs = hist::events_clone();
+    let oplog = ST.with(|s| s.borrow().oplog.clone());
+    let hmode = case.get("hmode") as u8;
+    let keys = case.get("keys").max(1) as u64;
+    if case.get("policy") != 1 {
+        return;
+    }
+    let g = crate::hybscn::geo(case);
+    let first_block = if g.tomb { 1 } else { 0 };
+    let cleaned = simdev::DISK.with(|d| d.borrow().writes.iter().any(|w| w.part >= first_block && w.offset == 0 && w.data.len() == simdev::PAGE && w.data.iter().all(|b| *b == 0)));
+    if cleaned {
+        return;
+    }
+    // restarts in event order, each with the return of the wait() that preceded it
+    let restarts: Vec<u64> = evs.iter().filter(|e| e.kind == "reopened").map(|e| e.seq).collect();
+    for (ri, r) in restarts.iter().enumerate() {
+        let Some(wait_ret) = evs.iter().rev().find(|e| (e.kind == "wait_ret" || e.kind == "close_ret") && e.seq < *r).map(|e| e.seq) else { continue };
+        let next_restart = restarts.get(ri + 1).copied().unwrap_or(u64::MAX);
+        for k in 0..keys {
+            // last client operation on k that returned before the restart
+            let last = oplog.iter().filter(|q| q.ret < *r && matches!(&q.op, Op::Insert { k: kk, .. } | Op::Remove { k: kk } | Op::Delete { k: kk } | Op::WriterInsert { k: kk, .. } | Op::Fetch { k: kk, .. } if *kk == k)).max_by_key(|q| q.ret);
+            let Some(last) = last else { continue };
+            let Op::Insert { .. } = &last.op else { continue };
+            if last.res.tag != Res::HIT || last.ret > wait_ret || oplog.iter().any(|q| matches!(q.op, Op::Clear) && q.ret > last.inv && q.ret < *r) {
+                continue;
+            }
+            let ver = last.res.ver;
+            let h = crate::hybscn::hash_of(hmode, k);
+            if evs.iter().any(|e| e.kind == "shed" && e.a == h && e.seq > last.inv && e.seq < *r) || rejected(case, k) {
+                continue;
+            }
+            // first lookup of k after the restart (before anything else touches k)
+            let first_op = oplog.iter().filter(|q| q.inv > *r && q.inv < next_restart && matches!(&q.op, Op::Get { k: kk, .. } | Op::Insert { k: kk, .. } | Op::Remove { k: kk } | Op::Delete { k: kk } | Op::Fetch { k: kk, .. } if *kk == k)).min_by_key(|q| q.inv);
+            let sweep = evs.iter().find(|e| e.kind == "sweep_get" && e.a == k && e.seq > *r && e.seq < next_restart);
+            let miss = match (first_op, sweep) {
+                (Some(q), _) if matches!(q.op, Op::Get { .. }) => Some((q.res.tag == Res::MISS, q.inv)),
+                (Some(_), _) => None,
+                (None, Some(e)) => Some((e.c == Res::MISS as u64, e.seq)),
+                (None, None) => None,
+            };
+            let Some((is_miss, at)) = miss else { continue };
+            hist::probe("c10_flushed_insert_read_after_restart");
+            hist::set_nontrivial();
+            if is_miss {
+                let after_delete = oplog.iter().any(|q| q.ret < last.inv && matches!(&q.op, Op::Remove { k: kk } | Op::Delete { k: kk } if *kk == k));
+                hist::violation(
+                    &case.property,
+                    "flushed-insert-hidden-after-restart",
+                    format!("insert({k},v{ver}) was flushed (wait returned at {wait_ret}) before the restart at {r}, nothing was shed or reclaimed, yet the first lookup after the restart (at {at}) misses"),
+                    &[("key_was_deleted_before", after_delete.to_string()), ("tomb", g.tomb.to_string())],
+                );
+            }
+        }
+    }
+}
+
 pub fn post(case: &Case) {
     let _ = Op::Clear;
+    if case.property == "C10" {
+        c10_post(case);
+    }
     if case.clients.len() > 1 && matches!(case.property.as_str(), "C06" | "C11") {
         c06_c11_hybrid(case);
         return;
